@@ -173,43 +173,56 @@ _m("C04", "final fields of real solves on mesh sequences: linear convection (spe
 _ADDED = {
     "C01": "Also: integer-typed fields, 257-1500-cell meshes and 17-40 squared grids, domain lengths 1e-9..1e9, nearly uniform meshes, "
            "acoustic (nearly at rest) and one-directional stream data at operator level; solve1d_large: implicit systems just above 256 "
-           "unknowns and explicit runs up to 400 cells; call histories mixing dtlocal and default solves.",
+           "unknowns and explicit runs up to 400 cells; call histories mixing dtlocal and default solves. "
+           "Sliver cells (1e-3..1e-8 of their neighbours) and refined ratios of 1e3..1e6, streams with one or two exceptional cells, user-supplied asymmetric limiters.",
     "C02": "Also: integer-typed states, nearly equal and nearly opposite states, one state against an array, sub-arrays selected by regime / "
            "position / at random re-evaluated and compared bit for bit with the full-array call (elementwise), python floats and numpy scalars.",
     "C03": "Also: fields built by fdata_fromprim from python scalars ([rho, [u, v], p]), large meshes, nozzle section laws that vanish exactly "
-           "at a mesh face, jump, or are tiny/huge; same-parameter conditions on both sides of one model object (mirror_pairs).",
+           "at a mesh face, jump, or are tiny/huge; same-parameter conditions on both sides of one model object (mirror_pairs). "
+           "Supersonic inlet / outlet conditions on sides tangential to the flow.",
     "C04": "Also: arbitrary mesh origin and every class that builds a uniform mesh, maximum-norm order for the linear schemes, strong Riemann "
-           "data (ratios 1e4, supersonic streams) on arbitrary meshes for the packaged reference, nozzle sections in any units.",
+           "data (ratios 1e4, supersonic streams) on arbitrary meshes for the packaged reference, nozzle sections in any units. "
+           "Expansions through the sonic point (and mirror images): the density jump at the sonic point must shrink under refinement; error decrease strict.",
     "C05": "Also: right-hand sides that return fresh arrays, one work buffer overwritten at every call, or arrays they keep (look-up tables): "
            "coefficients and results must not depend on it and the kept arrays must come back untouched; the library's own propagator() and "
-           "cflmax() against the stability function of the extracted tableau; every step inside real solves recomputed from the tableau.",
+           "cflmax() against the stability function of the extracted tableau; every step inside real solves recomputed from the tableau. "
+           "The time step as python float / numpy scalar / 0-d array / shape-(1,) array, the observed step being the second or third consecutive step on one field; right-hand sides returning views of the field they were given.",
     "C06": "Also: matrix_step (dQ/dt = A Q for random dissipative-or-neutral matrices, buffer-reusing right-hand sides), "
            "trajectory_in_solve (recorded main trajectory of real solves with save times inside the first step, monitors, used integrators: "
            "Crank-Nicolson start + BDF2 recurrence / theta scheme), nonlinear_step (increment of one real step on Euler / nozzle / shallow "
-           "water / Burgers = solution of the linearised system with one global or one per-cell time step).",
+           "water / Burgers = solution of the linearised system with one global or one per-cell time step). "
+           "large_linear_step (150..2200 unknowns incl. fixed witnesses of the repaired LU element growth, QR reference), stretched_mesh_order (known finding D20: fixed witness + random stretched meshes, exact-operator twin).",
     "C07": "Also: stop criteria written in either dictionary order, save times as list / tuple / array, start times up to +-1e6, CFL as numpy "
-           "scalar, requests bitwise on trajectory times, integrators used before with another CFL and dtlocal.",
+           "scalar, requests bitwise on trajectory times, integrators used before with another CFL and dtlocal. "
+           "Caller's stop / directives / save-time arguments untouched; single steps with every form of a global time step.",
     "C08": "Also: a quarter of the save/monitor purity cases with the dtlocal directive, the verbose directive and the flush option, restart with "
-           "another CFL against a fresh object, constructor-level monitors, 2D Euler scenarios.",
+           "another CFL against a fresh object, constructor-level monitors, 2D Euler scenarios. "
+           "One stop / directives dictionary reused across calls with other save times.",
     "C09": "Also: data amplitudes 1e-30..1e30 (half of them around the limiters' 1e-20 regularisation scale), small disturbances on a constant, "
            "uniform meshes from every mesh class, 1- and 2-cell meshes.",
     "C10": "Also: jumps up to 1e8, integer-typed admissible data (refused loudly by the unchanged library = skipped; a run that goes through is "
-           "judged), integrators used before with dtlocal and another CFL.",
+           "judged), integrators used before with dtlocal and another CFL. "
+           "At-rest and column-at-rest (dam-break / blast) data, gravities over 1e-2..1e2.",
     "C11": "Also: nearly uniform meshes, domain lengths 1e-9..1e9, large meshes; kappa operator on constant + small perturbation, tiny, huge and "
            "one-ulp-apart seam data; scheme objects reused on a second mesh.",
     "C12": "Also: nearly equal pairs (ratio 1 +- 1e-15..1e-3), integer-typed slopes, sub-arrays by sign pattern / position / shape compared bit "
            "for bit with the full-array call.",
-    "C13": "Also: a quarter of the twins with dtlocal, large problems, units of the nozzle section area, twins sharing scheme / model objects.",
-    "C14": "Also: a quarter of the twins with dtlocal, large periodic meshes beyond the exhaustive sizes, grids periodic in one direction only.",
+    "C13": "Also: a quarter of the twins with dtlocal, large problems, units of the nozzle section area, twins sharing scheme / model objects. "
+           "Tolerances include ulp(x)/dx_min on sliver meshes (bitwise classes unchanged).",
+    "C14": "Also: a quarter of the twins with dtlocal, large periodic meshes beyond the exhaustive sizes, grids periodic in one direction only. "
+           "Streams with one or two exceptional cells (first / last cell preferred).",
     "C15": "Also: insup angles on the axes (0, -0.0, 90, 180, 270, 360; int and float), twins sharing one model object.",
     "C16": "Also: integer-typed interior states and parameters, nearly-at-rest states (wall reversal judged relative to the normal component "
            "itself), normals taken from the mesh, alternating-side call histories on one model object.",
     "C17": "Also: integer-typed states, mixed scalar / array arguments of prim2cons and cons2prim, large meshes, model objects re-discretised on "
-           "other meshes.",
+           "other meshes. "
+           "Post-processing helpers (average, stats) and in-place work on the arrays phydata returns, then field and variables re-judged; sub-array twins of the conversions.",
     "C18": "Also: fields carrying another model object of the same family, domain lengths 1e-9..1e9, large meshes; only admissible cells are "
-           "judged; call histories with other CFL numbers (time steps recomputed by the monitor).",
+           "judged; call histories with other CFL numbers (time steps recomputed by the monitor). "
+           "Thin layers / rarefied states over 26 decades (formula of the statement as reference where the eigenvalues are ill-conditioned); under dtlocal the update of the last iteration recomputed with one time step per cell (forward Euler, implicit, Crank-Nicolson).",
     "C19": "Also: sources returning python floats, numpy scalars / 0-d arrays, lists, stored arrays and state components; integer-typed fields; "
-           "section areas in any units; interleaved discretisations of one model object; three consecutive rhs calls.",
+           "section areas in any units; interleaved discretisations of one model object; three consecutive rhs calls. "
+           "Sources with a defaulted third parameter (callable objects and lambdas).",
     "C20": "Also: every mesh judged again after other meshes were built; 2D meshes judged against the constructor arguments; positional / keyword "
            "/ default / numpy-integer call forms; integer-typed morphings; large meshes.",
 }
